@@ -261,7 +261,8 @@ def check(prog, res, tier):
     # the helpers may have moved (static methods with module-level aliases...): key the summaries by what the names resolve to
     runs_i = Runs(prog, entry_i, summaries={prog.func('mciipm.bitmap_check').short: bm_summary,
                                             prog.func('mciipm.block_1014_check').short: blk_summary,
-                                            prog.func('mciipm.encoding_check').short: enc_summary}, res=res)
+                                            prog.func('mciipm.encoding_check').short: enc_summary}, res=res,
+                  raise_ops=True)      # an operation that can fail on a short or odd sample (unpack, indexing) is allowed to fail
 
     def first_len(p):
         for e in p.events:
@@ -331,7 +332,9 @@ def check(prog, res, tier):
                     fails.append(definite('the first record length is not read from bytes 0-3'))
         if 'bm_reason' in it.user:
             r = out.items.get('reason')
-            if valid is not False or r is not it.user['bm_reason']:
+            in_range = u is not None and st.prove_ge0(Lin.const(MAX) - u.lin)
+            if valid is not False or (r is not it.user['bm_reason'] and in_range):
+                # (with a first length above the maximum as well, either reason will do: the helper may have been called early)
                 fails.append(definite('a bitmap naming an unconfigured element is not reported invalid with the reason given by bitmap_check'))
         if valid is True:
             base = sample.segs[0].lo if sample.segs else Lin.const(0)
@@ -462,7 +465,26 @@ def check(prog, res, tier):
     else:
         lo = min(x[0] for x in looked if x[0] is not None) if all(x[0] is not None for x in looked) else None
         hi = max(x[1] for x in looked if x[1] is not None) if all(x[1] is not None for x in looked) else None
-        if lo is not None and hi is not None and lo <= 2 and hi >= 128:
+        holes = []
+        if lo is not None and hi is not None:
+            # the union of the ranges looked up on the individual paths must leave out no element of 2..128
+            nxt = 2
+            for a, b in sorted(looked):
+                if a > nxt:
+                    holes.append((nxt, min(a - 1, 128)))
+                nxt = max(nxt, b + 1)
+                if nxt > 128:
+                    break
+            if nxt <= 128:
+                holes.append((nxt, 128))
+            holes = [h for h in holes if h[0] <= h[1]]
+        if lo is not None and hi is not None and lo <= 2 and hi >= 128 and holes:
+            a, b = holes[0]
+            ob.verdict = REFUTED
+            ob.detail = (f'element{"s" if b > a else ""} {a}{".." + str(b) if b > a else ""} of the first bitmap {"are" if b > a else "is"} '
+                         f'never looked up in the configuration: a bitmap that uses an unconfigured DE{a} is reported valid')
+            ob.witness = {'element not examined': a}
+        elif lo is not None and hi is not None and lo <= 2 and hi >= 128:
             ob.verdict, ob.detail = PROVED, f'looked-up element numbers range over {lo}..{hi}'
         elif lo is None or hi is None:
             ob.verdict, ob.detail = UNDECIDED, f'looked-up element numbers are unbounded ({lo}, {hi})'
